@@ -564,6 +564,8 @@ class MarkdownNormalizer(Renderer):
         children_content = re.sub(r"(?<!\\)\n", " ", children_content)
         # A run of "#" at the end of the text (alone or after a space) would be read as the
         # optional closing sequence of an ATX heading and disappear: escape it.
+        # Runs of spaces collapse as they do in a wrapped paragraph.
+        children_content = re.sub(r"[ \t]+", " ", children_content).strip(" ")
         closing = re.search(r"(?:^|(?<=[ \t]))#+$", children_content)
         if closing and not children_content[: closing.start()].endswith("\\"):
             children_content = (
@@ -811,7 +813,9 @@ class MarkdownNormalizer(Renderer):
 
     def render_table_cell(self, element: gfm_elements.TableCell) -> str:
         """Render a cell within a GFM table row."""
-        return self.render_children(element).replace("|", "\\|")
+        # Runs of spaces collapse as they do in a wrapped paragraph.
+        content = re.sub(r"[ \t]+", " ", self.render_children(element)).strip(" ")
+        return content.replace("|", "\\|")
 
     def render_url(self, element: gfm_elements.Url) -> str:
         """
